@@ -13,6 +13,10 @@
 #include <unistd.h>
 
 volatile int vf_mode = 0;
+void vf_point_slow(int kind, const volatile void* addr, const char* func);
+int  vf_spurious_slow(const char* func);
+void vf_yield_slow(const char* func);
+void vf_lock_contended_slow(const char* func);
 
 enum { T_RUNNABLE = 1, T_DONE = 2 };
 
@@ -147,29 +151,29 @@ static void baton_point(const char* func, int force) {
     pthread_mutex_lock(&g_mu); if (!g_free_run) release_all(); pthread_mutex_unlock(&g_mu);
     return;
   }
-  int do_switch = force;
   uint64_t r = xs64(&self->rng);
   if (g_cfg.policy == VF_POL_PCT) {
-    for (int i = 0; i < g_cfg.pct_depth; i++) {
-      if (g_pct_change[i] == step) { self->prio = g_pct_next_low--; do_switch = 1; }
-    }
-    if (force) { self->prio = g_pct_next_low--; }
-    /* under PCT a switch happens only if a higher priority thread exists */
-    if (!do_switch) {
-      /* a newly created thread may have higher priority */
-      do_switch = 1;
-    }
+    // PCT: always run the highest priority runnable thread; at the d change points (and when a thread says it is waiting) its priority drops below all others
+    for (int i = 0; i < g_cfg.pct_depth; i++) { if (g_pct_change[i] == step) self->prio = g_pct_next_low--; }
+    if (force) self->prio = g_pct_next_low--;
+    pthread_mutex_lock(&g_mu);
+    vf_thread_t* next = pick_other(self, r >> 20);
+    if (next != NULL && next->prio < self->prio) next = NULL;
+    pthread_mutex_unlock(&g_mu);
+    if (next == NULL) { if (force) sched_yield(); return; }
+    hand_over(self, next, fe, force);
+    return;
   }
-  else if (!do_switch) {
+  int do_switch = force;
+  if (!do_switch) {
     unsigned den = (g_cfg.policy == VF_POL_TARGETED && fe->hot) ? g_cfg.p_hot_den : g_cfg.p_other_den;
     if (den != 0 && (r % den) == 0) do_switch = 1;
   }
   if (!do_switch) return;
   pthread_mutex_lock(&g_mu);
   vf_thread_t* next = pick_other(self, r >> 20);
-  if (next != NULL && g_cfg.policy == VF_POL_PCT && !force && next->prio < self->prio) next = NULL;
-  if (next == NULL) { pthread_mutex_unlock(&g_mu); if (force) sched_yield(); return; }
   pthread_mutex_unlock(&g_mu);
+  if (next == NULL) { if (force) sched_yield(); return; }
   hand_over(self, next, fe, force);
 }
 
@@ -210,7 +214,7 @@ int vf_spurious_slow(const char* func) {
   return 1;
 }
 
-void vf_user_point(const char* what) { if (vf_mode != 0) vf_point_slow(VF_K_USER_, NULL, what); }
+void vf_user_point(const char* what) { if (vf_mode != 0) vf_point_slow(13, NULL, what); }
 void vf_user_yield(const char* what) { if (vf_mode != 0) vf_yield_slow(what); else sched_yield(); }
 
 /* ---- threads ---- */
@@ -246,6 +250,7 @@ int vf_thread_create(vf_thread_fn fn, void* arg) {
   t->rng = mix64(g_cfg.seed + 0x9E3779B97F4A7C15ull * (uint64_t)(t->index + 1)) | 1;
   t->prio = 1000 + (int)(mix64(g_cfg.seed ^ (0xABCDull * (uint64_t)(t->index + 7))) % 1000);
   g_threads[g_nthreads++] = t;
+  if (g_free_run) sem_post(&t->sem);
   pthread_mutex_unlock(&g_mu);
   pthread_attr_t at; pthread_attr_init(&at); pthread_attr_setstacksize(&at, 1u << 20);
   if (pthread_create(&t->pt, &at, trampoline, t) != 0) { fprintf(stderr, "vf_sched: pthread_create failed\n"); abort(); }
@@ -274,8 +279,8 @@ void vf_run_all(void) {
 }
 
 void vf_sched_get_stats(vf_sched_stats_t* out) {
-  out->points = g_points; out->switches = g_switches; out->forced_switches = g_forced;
-  out->spurious = g_spurious; out->delays = g_delays; out->sched_hash = g_hash;
+  out->points = __atomic_load_n(&g_points, __ATOMIC_RELAXED); out->switches = __atomic_load_n(&g_switches, __ATOMIC_RELAXED); out->forced_switches = __atomic_load_n(&g_forced, __ATOMIC_RELAXED);
+  out->spurious = __atomic_load_n(&g_spurious, __ATOMIC_RELAXED); out->delays = __atomic_load_n(&g_delays, __ATOMIC_RELAXED); out->sched_hash = __atomic_load_n(&g_hash, __ATOMIC_RELAXED);
   out->budget_exceeded = g_budget_exceeded; out->threads_created = g_nthreads;
 }
 
